@@ -682,24 +682,19 @@ Proof.
 Qed.
 Print Assumptions raire_model_output_true_partial.
 
-(* ---- what is missing for the full statement.
+(* ---- the loop invariant.
    `raire_model_output_checked` (whenever the model returns Some out with out <> [], check_output accepts it) needs,
    besides the theorem above and the lemmas of Section Suff (find_best_audit's assertion excludes its tail;
-   de-duplication, sorting and both subsumption rules keep every frontier tail excluded), ONE invariant of the search
-   loop that is NOT proved here:
+   de-duplication, sorting and both subsumption rules keep every frontier tail excluded), one invariant of the search
+   loop:
 
      frontier_covers: when `search` finishes, every complete elimination order ending in a candidate other than the
      reported winner has a suffix that is the tail of some frontier node.
 
-   It holds initially (all tails [d; c] with c <> winner).  Its preservation needs a joint invariant over the heap,
-   the frontier and the lower bound: (1) best_ancestor of a node is a proper-suffix ancestor; (2) for a node on the
-   frontier with explored children (created by a dive, which re-dives to the same child), every order through an
-   explored child is either covered by another frontier entry or the node's estimate is <= lowerbound, so that the
-   node is made a leaf, not expanded, when it is popped again (this is where `next_lowerbound = max(lowerbound,
-   best_ancestor.estimate)` in manage_node is used); (3) replace_descendents only removes entries whose orders the
-   re-inserted ancestor covers.  The theorem below is the full statement CONDITIONAL on that invariant; every output
-   of the model is in any case validated at run time (it is compared with the implementation's output, which
-   check_output accepts: Run_Raire.agree_algo and agree_c04). *)
+   The theorem below is the full statement CONDITIONAL on that invariant.  The invariant itself is proved in
+   RaireAlgo_inv.v (search_frontier_covers: a joint invariant over heap, frontier and lower bound — every
+   alternative order keeps a frontier entry that is frozen, i.e. will not be expanded again, or does not continue
+   through an already-explored child), which yields the unconditional RaireAlgo_inv.raire_model_output_checked. *)
 Definition frontier_covers (cands : list cand) (winner : cand) (h : heap) (fr : list fentry) : Prop :=
   forall pi, Permutation cands pi -> ends_in_other winner pi = true ->
              exists x, In x fr /\ ends_with (n_tail (get h (fe_id x))) pi.
